@@ -168,6 +168,15 @@ CHECKS["C20"] = dict(
     note="The artists' data are the observation point (Agg backend); theoretical quantiles compared for unconditional dimensions.",
     design="7/C20",
 )
+CHECKS["C19"] = dict(
+    technique="model-based history generation with Hypothesis (operation sequences with generated arguments that shrink as one value) and snapshot invariants after every step",
+    text="Pool of live models (generated 2-D and 3-D models, a fitted model from one of the six predefined getters incl. the two TransformedModels) and histories of <= 6 (quick) / <= 10 (thorough) operations "
+         "out of 17 evaluation / contour / plotting / saving entry points and 4 fitting operations. After every step: deep structural snapshots of all models not being fitted are unchanged, caller-owned "
+         "arrays (handed over read-only) are bit-identical, every deterministic operation executed twice returns identical results, ConditionalDistribution.fit leaves its template untouched and uses distinct "
+         "per-interval copies, two calls of a predefined getter share no mutable object and fitting one leaves the other unchanged.",
+    note="Bounded history length; Monte-Carlo operations are made deterministic by seeding numpy's global RNG before the call.",
+    design="7/C19",
+)
 NOT_YET = {}
 
 def main():
